@@ -466,7 +466,14 @@ func (c *Conn) Write(b []byte) (int, error) {
 		b = b[max:]
 
 		// Check if there was an upcoming action, and that the byte offset matches the action's byte.
-		if c.Context.NextActionInfo.ActionNext &&
+		// Several actions may lie on the same byte (a halt and a close, a close on a
+		// throttle boundary, ...): all of them are due now. They are performed here,
+		// in a loop, rather than one per iteration of the write loop, because the
+		// byte just written may have been the last one of the response: there is
+		// no further iteration then, and the remaining actions on that byte (a
+		// close behind a halt, say) would never be performed. Every pass either
+		// returns or moves NextActionInfo on to a later index.
+		for c.Context.NextActionInfo.ActionNext &&
 			c.Context.ByteOffset >= c.Context.NextActionInfo.ByteOffset {
 			// Note here, we check again that the url shape map is still valid and that the action still has
 			// a non zero count, since that could have been modified since the last time we checked.
